@@ -19,6 +19,7 @@
 
 from __future__ import annotations
 
+import hashlib
 import json
 import os
 import sys
@@ -133,12 +134,18 @@ def run_event(name, hist, config):
     """Execute one event in the current process, compare M_glob.  Returns a record."""
     before = Gl.snapshot()
     raised = None
+    digest = None
     try:
-        Gl.EVENTS[name]()
+        value = Gl.EVENTS[name]()
     except BaseException as e:  # noqa: BLE001
         raised = type(e).__name__
     after = Gl.snapshot()
-    rec = {"event": name, "raised": raised, "violation": None}
+    if raised is None:
+        try:
+            digest = hashlib.sha1(repr(_digestable(value)).encode()).hexdigest()[:16]
+        except Exception as e:  # noqa: BLE001
+            digest = f"undigestable:{type(e).__name__}"
+    rec = {"event": name, "raised": raised, "violation": None, "digest": digest}
     if name == "register_awkward()":
         import vector.backends.awkward as vba
 
@@ -152,6 +159,23 @@ def run_event(name, hist, config):
     elif after != before:
         rec["violation"] = ("global_state", f"{name} changed process-wide state: {_diff(before, after)}" + (f" (the call raised {raised})" if raised else ""))
     return rec
+
+
+def _digestable(x):
+    """bit-exact, order-preserving, process-independent description of an event's return value"""
+    if isinstance(x, (tuple, list)):
+        return [type(x).__name__] + [_digestable(v) for v in x]
+    if isinstance(x, (vector.Vector, np.ndarray, ak.Array, ak.Record)):
+        return observe(x)
+    if isinstance(x, (np.generic,)):
+        return (type(x).__name__, x.tobytes().hex())
+    if isinstance(x, float):
+        return ("float", x.hex())
+    if isinstance(x, (bool, int, str, type(None), bytes)):
+        return (type(x).__name__, x)
+    if isinstance(x, sympy.Basic):
+        return ("sympy", sympy.srepr(x))
+    return (type(x).__name__, repr(x))
 
 
 def fork_tree(prefix, depth_left, config, firsts, out):
@@ -203,6 +227,11 @@ def run_history_shard(res: Result, shard, tier):
     # the exploring process itself becomes the configured initial state (it is a one-shard worker)
     Gl.apply_config(config)
     out = []
+    # reference: every event as the first call in a process of this configuration (results of pure functions of their
+    # operands cannot depend on what was called before)
+    refs = []
+    fork_tree([], 1, config, None, refs)
+    ref = {r["history"][-1]: (r.get("raised"), r.get("digest")) for r in refs if "harness_error" not in r}
     fork_tree([], shard["depth"], config, shard["first"], out)
     abstract = set()
     for rec in out:
@@ -219,6 +248,9 @@ def run_history_shard(res: Result, shard, tier):
             res.count("events_that_raised")
         registered = "register_awkward()" in hist
         abstract.add((config, registered))
+        if rec["violation"] is None and hist[-1] in ref and (rec.get("raised"), rec.get("digest")) != ref[hist[-1]]:
+            rec["violation"] = ("history_dependent_result", f"{hist[-1]} gives a different result (or raises differently) after {hist[:-1]} than as the first call of the process: "
+                                f"raised {rec.get('raised')} / digest {rec.get('digest')} vs raised {ref[hist[-1]][0]} / digest {ref[hist[-1]][1]}")
         if rec["violation"]:
             clause, msg = rec["violation"]
             res.violation(f"{clause}|{hist[-1]}|after:{'+'.join(hist[:-1]) or 'fresh'}|{config}" if clause == "global_state" else f"{clause}|{hist[-1]}|{config}",
@@ -670,24 +702,23 @@ def replay(case):
     res = Result()
     if case["kind"] == "history":
         # replay the exact history in a forked child of a freshly configured process
-        r, w = os.pipe()
-        pid = os.fork()
-        if pid == 0:
-            os.close(r)
+        def whole():
             Gl.apply_config(case["config"])
-            recs = []
-            for i, name in enumerate(case["history"]):
-                recs.append({"history": case["history"][: i + 1], **run_event(name, case["history"][:i], case["config"])})
-            os.write(w, json.dumps(recs).encode())
-            os._exit(0)
-        os.close(w)
-        with os.fdopen(r, "rb") as fh:
-            recs = json.loads(fh.read())
-        os.waitpid(pid, 0)
+            return [{"history": case["history"][: i + 1], **run_event(name, case["history"][:i], case["config"])} for i, name in enumerate(case["history"])]
+
+        def alone(name):
+            Gl.apply_config(case["config"])
+            return run_event(name, [], case["config"])
+
+        recs = _in_child(whole)
+        ref = {name: _in_child(lambda name=name: alone(name)) for name in dict.fromkeys(case["history"])}
         for rec in recs:
+            hist = rec["history"]
+            r0 = ref[hist[-1]]
+            if rec["violation"] is None and (rec.get("raised"), rec.get("digest")) != (r0.get("raised"), r0.get("digest")):
+                rec["violation"] = ("history_dependent_result", f"{hist[-1]} gives a different result after {hist[:-1]} than as the first call of the process")
             if rec["violation"]:
                 clause, msg = rec["violation"]
-                hist = rec["history"]
                 res.violation(f"{clause}|{hist[-1]}|{case['config']}", f"[config {case['config']}] history {hist}: {msg}", case)
         return res
     # schedules are replayed in a forked child so that a leaked global change cannot influence the second replay
